@@ -102,3 +102,102 @@ Example ex_tlvmsg_merge_keeps :
   out_recs msg_UpdateFulfillHTLC [(3, [255]); (65537, [1])] = [(3, [255]); (65537, [1])] /\
   ensure_all (always_types (tm_known msg_OpenChannel)) [(1, [2])] = [(0, []); (1, [2])].
 Proof. vm_compute. auto. Qed.
+
+(* ---- C10c: messages and failure codes added by the third work package ---- *)
+
+(* C10_optmsg_roundtrip / _fixpoint are not vacuous: ChannelReestablish without its tail,
+   and with the data-loss-protect fields, a DynHeight record and a two-entry LocalNonces map *)
+Definition ex_entry (k : N) : bytes := repeat k 32 ++ repeat 2 66.
+
+Example ex_optmsg_valid :
+  let v0 : ovalue := ([VB (repeat 7 32); VN 5; VN 6], None) in
+  let v1 : ovalue := ([VB (repeat 7 32); VN 5; VN 6],
+                      Some ([VB (repeat 9 32); VB (repeat 2 33)], [],
+                            [(20, [0; 0; 0; 0; 0; 0; 0; 9]); (22, ex_entry 1 ++ ex_entry 3)])) in
+  om_ok opt_ChannelReestablish = true /\
+  valid_ov (fun _ => true) opt_ChannelReestablish v0 = true /\
+  valid_ov (fun _ => true) opt_ChannelReestablish v1 = true /\
+  complete_ov opt_ChannelReestablish v1 = true /\
+  match encode_om opt_ChannelReestablish v1 with
+  | Some e => decode_om (fun _ => true) opt_ChannelReestablish e = Some v1 /\ length e = 321%nat
+  | None => False
+  end.
+Proof. vm_compute. repeat split; reflexivity. Qed.
+
+(* the LocalNonces map is re-encoded sorted by txid; a duplicate txid and a 17th entry are
+   rejected (decodeLocalNoncesData) *)
+Example ex_nonce_map :
+  rk_norm RKNonceMap (ex_entry 3 ++ ex_entry 1) = ex_entry 1 ++ ex_entry 3 /\
+  rk_check (fun _ => true) RKNonceMap (ex_entry 3 ++ ex_entry 1) = true /\
+  rk_check (fun _ => true) RKNonceMap (ex_entry 3 ++ ex_entry 3) = false /\
+  rk_check (fun _ => true) RKNonceMap (concat (map ex_entry (map N.of_nat (seq 0 16)))) = true /\
+  rk_check (fun _ => true) RKNonceMap (concat (map ex_entry (map N.of_nat (seq 0 17)))) = false /\
+  rk_check (fun _ => true) RKNonceMap (ex_entry 3 ++ [0]) = false.
+Proof. vm_compute. repeat split; reflexivity. Qed.
+
+(* ClosingComplete: regular and taproot signatures exclude each other *)
+Example ex_closing_excl :
+  let pre := repeat 7 32 ++ [0; 0] ++ [0; 0] ++ repeat 0 8 ++ repeat 0 4 in
+  let sig := 1 :: 64 :: repeat 5 64 in
+  let tap := 5 :: 98 :: repeat 1 98 in
+  (exists v, decode_tm (fun _ => true) msg_ClosingComplete (pre ++ sig) = Some v) /\
+  (exists v, decode_tm (fun _ => true) msg_ClosingComplete (pre ++ tap) = Some v) /\
+  decode_tm (fun _ => true) msg_ClosingComplete (pre ++ sig ++ tap) = None.
+Proof. vm_compute. repeat split; eauto. Qed.
+
+(* finding C10-F2 at message level: DynPropose accepts a dust-limit record (type 0, a BigSize
+   integer) announcing 3 bytes while its value takes one; the re-encoding announces 1 *)
+Example ex_dyn_bigsize_claim :
+  let b := repeat 7 32 ++ [0; 3; 5] ++ [8; 2; 0; 9] in
+  match decode_tm (fun _ => true) msg_DynPropose b with
+  | Some v => encode_tm msg_DynPropose v = Some (repeat 7 32 ++ [0; 1; 5] ++ [8; 2; 0; 9])
+  | None => False
+  end.
+Proof. vm_compute. reflexivity. Qed.
+
+(* C10_failure_update_roundtrip is not vacuous: FeeInsufficient with an embedded update *)
+Example ex_failure_update :
+  let upd : tvalue :=
+    ([VB (repeat 1 64); VB (repeat 2 32); VN 99; VN 1000; VN 1; VN 0; VN 40; VN 1; VN 2; VN 3],
+     [VN 123456], [(55555, [0; 0; 0; 1; 0; 0; 0; 2])]) in
+  let v : ovalue := ([VN 777], Some upd) in
+  tm_ok gen_upd = true /\
+  valid_fd (fun _ => true) gen_upd (FDUpd failupd_FailFeeInsufficient) v = true /\
+  match encode_failure_g gen_upd gen_fdescs 4108 v with
+  | Some p => decode_failure_g (fun _ => true) gen_upd gen_fdescs p = Some (4108, v) /\
+              length p = 260%nat
+  | None => False
+  end.
+Proof. vm_compute. repeat split; reflexivity. Qed.
+
+(* the update may come without its 0x0102 type prefix, and a claimed length beyond the
+   input is cut by the reader; TemporaryChannelFailure may carry no update at all *)
+Example ex_failure_update_compat :
+  read_fmessage (fun _ => true) gen_upd gen_fdescs [16; 7; 0; 0] = Some (4103, ([], None)) /\
+  read_fmessage (fun _ => true) gen_upd gen_fdescs [16; 14; 0; 0] = None /\
+  (exists v, read_fmessage (fun _ => true) gen_upd gen_fdescs
+               ([16; 14; 0; 200] ++ repeat 3 64 ++ repeat 2 32 ++ repeat 0 32) = Some (4110, v)).
+Proof. vm_compute. repeat split; eauto. Qed.
+
+(* EOF-tolerant payload: IncorrectDetails with no payload is amount 0, height 0 and
+   re-encodes to 12 bytes; a partly present field is an error *)
+Example ex_eof_payload :
+  decode_fd (fun _ => true) gen_upd (FDEof faileof_FailIncorrectDetails) [] =
+    Some ([VN 0; VN 0; VB []], None) /\
+  encode_fd gen_upd (FDEof faileof_FailIncorrectDetails) ([VN 0; VN 0; VB []], None) =
+    Some (repeat 0 12) /\
+  decode_fd (fun _ => true) gen_upd (FDEof faileof_FailIncorrectDetails) [0; 0; 0] = None /\
+  decode_fd (fun _ => true) gen_upd (FDEof faileof_FailIncorrectDetails) (repeat 1 8) =
+    Some ([VN 72340172838076673; VN 0; VB []], None).
+Proof. vm_compute. repeat split; reflexivity. Qed.
+
+(* node_announcement addresses: padding dropped, IPv4-mapped tcp6 becomes tcp4, an unknown
+   descriptor type keeps the rest opaque, a cut descriptor is an error; alias must be UTF-8 *)
+Example ex_addrs :
+  addrs_parse ([0] ++ [2] ++ repeat 0 10 ++ [255; 255; 10; 0; 0; 1; 37; 7] ++ [9; 1; 2]) =
+    Some ([1; 10; 0; 0; 1; 37; 7] ++ [9; 1; 2]) /\
+  addrs_parse [1; 10; 0; 0] = None /\
+  utf8_valid [104; 195; 169; 0] = true /\ utf8_valid [192; 128] = false /\
+  utf8_valid [237; 160; 128] = false /\ utf8_valid [244; 144; 128; 128] = false /\
+  utf8_valid [226; 130] = false.
+Proof. vm_compute. repeat split; reflexivity. Qed.
